@@ -1,7 +1,8 @@
 #!/venv/bin/python
 """Re-runs, for every kept seeded change, the quick check of its property against a scratch copy of
 /repo with the patch applied (under /tmp, removed afterwards) and reports whether it is (still) caught.
-usage: tools/seed_recheck.py [-j N] [--tier quick]"""
+usage: tools/seed_recheck.py [-j N] [--tier quick] [--update] [ids...]
+--update records the result in seeded/<id>/meta.json (the result at ingest time is kept as checks_at_ingest)."""
 import argparse
 import concurrent.futures as cf
 import glob
@@ -14,7 +15,10 @@ import tempfile
 HERE = os.path.dirname(os.path.dirname(os.path.abspath(__file__)))
 
 
-def one(d, tier):
+SEED = None
+
+
+def one(d, tier, update=False):
     k = os.path.basename(d)
     m = json.load(open(d + "/meta.json"))
     pid = m["property"]
@@ -25,10 +29,23 @@ def one(d, tier):
         if r.returncode != 0:
             return k, "PATCH-DOES-NOT-APPLY", []
         env = dict(os.environ, VERIF_REPO=s)
+        if SEED is not None:
+            env["VERIF_SEED"] = SEED
         p = subprocess.run([os.path.join(HERE, "check"), pid, "--tier", tier, "--noevidence"], cwd=HERE, env=env,
                            capture_output=True, text=True, timeout=3400)
         mechs = [l.split("mechanism=")[1].split(" (")[0] for l in p.stdout.splitlines() if "mechanism=" in l]
-        return k, {1: "CAUGHT", 0: "MISSED", 2: "INCONCLUSIVE"}.get(p.returncode, str(p.returncode)), mechs[:3]
+        hits = sum(int(l.split("mechanism=")[1].split(" (")[1].split("x)")[0]) for l in p.stdout.splitlines()
+                   if "mechanism=" in l and "x)" in l)
+        if update and p.returncode in (0, 1):
+            m = json.load(open(d + "/meta.json"))
+            if "checks_at_ingest" not in m:
+                m["checks_at_ingest"] = m.get("checks", {})
+                m["caught_by_at_ingest"] = m.get("caught_by", [])
+            key = pid if tier == "quick" else pid + ":" + tier
+            m.setdefault("checks", {})[key] = {"rc": p.returncode, "tier": tier, "mechanisms": sorted(set(mechs))[:8]}
+            m["caught_by"] = sorted({c.split(":")[0] for c, v in m["checks"].items() if v["rc"] == 1})
+            json.dump(m, open(d + "/meta.json", "w"), indent=1)
+        return k, {1: "CAUGHT", 0: "MISSED", 2: "INCONCLUSIVE"}.get(p.returncode, str(p.returncode)), ["hits=%d" % hits] + mechs[:3]
     finally:
         shutil.rmtree(s, ignore_errors=True)
 
@@ -37,11 +54,18 @@ def main():
     ap = argparse.ArgumentParser()
     ap.add_argument("-j", type=int, default=6)
     ap.add_argument("--tier", default="quick")
+    ap.add_argument("--update", action="store_true")
+    ap.add_argument("ids", nargs="*")
+    ap.add_argument("--seed")
     a = ap.parse_args()
+    global SEED
+    SEED = a.seed
     dirs = sorted(glob.glob(os.path.join(HERE, "seeded", "C*-*")))
+    if a.ids:
+        dirs = [d for d in dirs if os.path.basename(d) in a.ids or os.path.basename(d).split("-")[0] in a.ids]
     bad = 0
     with cf.ThreadPoolExecutor(a.j) as ex:
-        for k, st, mechs in ex.map(lambda d: one(d, a.tier), dirs):
+        for k, st, mechs in ex.map(lambda d: one(d, a.tier, a.update), dirs):
             if st != "CAUGHT":
                 bad += 1
             print(f"{st:12} {k:8} {mechs}", flush=True)
